@@ -46,7 +46,7 @@ def gen_wipe(rng, tier, mult):
                 secret = bytes(r.range(0x21, 0x7e) for _ in range(r.range(16, 48)))
                 kid = bytes(r.range(0x41, 0x5a) for _ in range(r.range(4, 20)))
                 good = [b"ACCESS_KEY_ID=" + kid + b"\n", b"ACCESS_KEY_SECRET=" + secret + b"\n"]
-                v = r.below(8)
+                v = r.below(12)
                 if v == 0:
                     lines = good                                       # success
                 elif v == 1:
@@ -61,8 +61,16 @@ def gen_wipe(rng, tier, mult):
                     lines = [good[1], b"ACCESS_KEY_ID=" + kid]         # missing EOL on the last line
                 elif v == 6:
                     lines = [good[0], good[1], good[0]]                # id twice after the secret
-                else:
+                elif v == 7:
                     lines = [good[1], b"x" * 1100 + b"\n"]             # over-long line after the secret
+                elif v == 8:
+                    lines = [good[1], b"ACCESS_KEY_SECRET=" + secret[:r.range(0, len(secret) - 1)] + b"\n"]   # second, shorter secret
+                elif v == 9:
+                    lines = [good[0], good[1], b"ACCESS_KEY_SECRET=\n"]                                        # second, empty secret
+                elif v == 10:
+                    lines = [good[1], b"ACCESS_KEY_SECRET=" + secret + bytes(r.range(0x41, 0x5a) for _ in range(r.range(1, 30))) + b"\n"]  # longer
+                else:
+                    lines = [good[1], b"ACCESS_KEY_ID=" + kid + b"\n", b"\n"]                                  # empty line after both keys
                 ops.append("readkeys %s %s" % (hx(secret), hx(b"".join(lines))))
         cases.append(ops)
     return cases
